@@ -190,6 +190,56 @@ def status_at_every_step(ck, mons, seed, hi):
     ck.nontrivial(('status-every-step', hi))
 
 
+def ends_with_children(ck, mons, seed, i):
+    """An IKE_SA that holds TWO to FOUR CHILD_SAs ends - delete exchange started by either end, retransmission time-out after the peer vanished, DELETE(IKE) of the peer
+    arriving while an exchange of ours is in flight: it leaves the table together with ALL its kernel SAs, at both ends where both ends learn of it."""
+    n_children = 2 + i % 3
+    how = ('A-deletes', 'B-deletes', 'peer-vanishes-during-a-rekey', 'peer-vanishes-idle', 'delete-crosses-our-request')[(i // 3) % 5]
+    sc = walk.Scenario(seed, mons, dict(dpd=8, lifetime=3600), n_children=n_children)
+    sim = sc.sim
+    sim.case.update({'family': 'ike-sa-ends-with-several-child-sas', 'child_sas': n_children, 'how': how})
+    if not sc.ok or len(sc.a.kernel.sad) != 2 * n_children:
+        ck.count('ends.setup_failed')
+        return
+    if how == 'A-deletes':
+        sc.trigger('A', 'delete_ike')
+        sim.drain()
+    elif how == 'B-deletes':
+        sc.trigger('B', 'delete_ike')
+        sim.drain()
+    elif how == 'peer-vanishes-during-a-rekey':
+        sc.trigger('A', 'expire_soft')
+        sim.net.clear()
+        for _ in range(40):
+            sim.clock.advance(2.1)
+            sc.a.step('tick')
+            sim.net.clear()
+    elif how == 'peer-vanishes-idle':
+        for _ in range(50):
+            sim.clock.advance(2.1)
+            sc.a.step('tick')
+            sim.net.clear()
+    else:
+        sc.trigger('A', 'expire_soft')
+        held = list(sim.net)
+        sim.net.clear()
+        sc.trigger('B', 'delete_ike')
+        sim.net.extend(held)
+        sim.drain()
+    sc.settle()
+    ck.count('ends.runs')
+    ck.seen('ends.kinds', (how, n_children))
+    ck.nontrivial(('ends', how, n_children))
+    for ep in ((sc.a, sc.b) if 'vanishes' not in how else (sc.a,)):
+        if ep.ctl.ike_sas:
+            ck.violation(f'table-keeps-an-ike-sa-that-ended:{how}', {'endpoint': ep.name, 'states': [x.state.name for x in ep.ctl.ike_sas]}, sim.case)
+            return
+        if ep.kernel.sad:
+            ck.violation(f'ike-sa-left-the-table-but-kernel-sas-stay:{how}', {'endpoint': ep.name, 'kernel_sas_left': len(ep.kernel.sad), 'child_sas_it_had': n_children}, sim.case)
+            return
+    ck.count('ends.table_and_kernel_empty')
+
+
 def run(ck):
     tab, rout, exp = monitors.TableMonitor(ck), RoutingMonitor(ck), ExpireMonitor(ck)
     mons = [tab, rout, exp]
@@ -213,6 +263,9 @@ def run(ck):
     for ci in range(30):
         if ck.mine(ci + 4):
             c10_.odd_spi_sizes(ck, [tab], base + 640 + ci, ci)
+    for i in range(30 if not ck.thorough() else 600):
+        if ck.mine(i):
+            ends_with_children(ck, [tab], base + 777 + i, i)
     # (a) duplication patterns of rekey / delete exchanges
     lists = [[('A', 'rekey_ike')], [('B', 'rekey_ike')], [('A', 'delete_ike')], [('B', 'delete_ike')],
              [('A', 'rekey_ike'), ('B', 'rekey_ike')], [('A', 'rekey_ike'), ('B', 'delete_ike')],
@@ -698,6 +751,7 @@ def run(ck):
 
 
 def verdict(ck):
+    ck.floor('IKE_SAs with several CHILD_SAs that ended, table and kernel empty afterwards', ck.counters['ends.table_and_kernel_empty'], 24)
     ck.floor('IKE_SAs ended by an authentic message with an odd SPI size, kernel SAs compared', ck.counters['odd_spi.sad_equals_tracked'], 24)
     ck.floor('status queries between the single steps of histories that start before the handshake', ck.counters['status.queries_between_single_steps'], 400)
     ck.floor('SPI collision set-ups between two IKE_SAs of one pair of addresses', ck.counters['collision.two_ike_sas_of_one_pair_setups'], 6)
